@@ -33,4 +33,6 @@ ASSUMPTIONS = ['synchronize_rcu replaced by the C01 contract stub (blocks until 
                'set_thread_cpu_affinity stubbed (no affinity)']
 LEVEL_TEXT = 'Bounded model checking of the real call_rcu / call_rcu_thread / wake-up handshake over all interleavings within R rounds plus a solo completion phase.'
 LEVEL_NOTE = 'Trusted: clang-14 lowering, irseq translator, asm table, futex/mutex/pthread_create stubs, C01 contract, CBMC/MiniSat.'
-NA_REASON = 'check built but not yet validated on the unchanged tree within the time/memory caps; not claimed'
+NA_REASON = ('not decided: harness/c03_callrcu.c encodes the real call_rcu helper thread (137 visible steps: wfcq splice, futex sleep/wake, grace period through the C01 contract stub) '
+             'next to two enqueuers and a reader; symbolic execution of that encoding alone exceeded 25 minutes (points-to guard and query both timed out at 1500 s), so there is no '
+             'verdict on the unchanged tree and nothing is claimed; the queue underneath (wfcqueue) is covered by C10')
